@@ -9,16 +9,16 @@ def sh(cmd, cwd, timeout=3600):
     p = subprocess.run(cmd, cwd=cwd, shell=True, stdout=subprocess.PIPE, stderr=subprocess.STDOUT, timeout=timeout)
     return p.returncode, p.stdout.decode('utf-8', 'replace')
 
-def main(P):
-    wt, out = '/tmp/seed/' + P, '/tmp/seed/out-' + P
+def main(P, base='/tmp/seed', offset=0):
+    wt, out = base + '/' + P, base + '/out-' + P
     meta = json.load(open(os.path.join(out, 'meta.json')))
     res = []
     sh('git checkout -- .', wt)
-    for n in (1, 2):
+    for n in (1, 2, 3):
         diff, demo = os.path.join(out, 'change%d.diff' % n), os.path.join(out, 'demo%d.sh' % n)
         if not os.path.exists(diff):
             continue
-        info = {'property': P, 'n': n}
+        info = {'property': P, 'n': n + offset}
         rc, o = sh('cargo build --offline 2>&1 | tail -2', wt)
         rc0, o0 = sh('bash %s %s' % (demo, wt), wt, 900)
         info['demo_unchanged_exit'] = rc0
@@ -36,7 +36,7 @@ def main(P):
         info['confirmed'] = ok
         res.append(info)
         if ok:
-            d = os.path.join(V, 'seeded', '%s-%d' % (P, n))
+            d = os.path.join(V, 'seeded', '%s-%d' % (P, n + offset))
             os.makedirs(d, exist_ok=True)
             shutil.copy(diff, os.path.join(d, 'patch.diff'))
             shutil.copy(demo, os.path.join(d, 'demo.sh'))
@@ -50,8 +50,8 @@ def main(P):
                                                           'cargo test --workspace --no-fail-fast --offline']},
                        'detected_by': None}, open(os.path.join(d, 'meta.json'), 'w'), indent=1, ensure_ascii=False)
     sh('cargo build --offline 2>&1 | tail -1', wt)
-    json.dump(res, open('/tmp/seed/confirm-%s.json' % P, 'w'), indent=1)
+    json.dump(res, open(base + '/confirm-%s.json' % P, 'w'), indent=1)
     print(json.dumps(res, indent=1))
 
 if __name__ == '__main__':
-    main(sys.argv[1])
+    main(sys.argv[1], *(sys.argv[2:3] or ['/tmp/seed']), offset=int(sys.argv[3]) if len(sys.argv) > 3 else 0)
